@@ -429,6 +429,16 @@ func (p *Processor) processConnectAttempt(rep ConnectAttempt) {
 		return
 	}
 
+	// Connect attempts may overlap (a new one is started once the back-off
+	// has expired, even if the previous one has not returned yet). Only
+	// the first result counts: a later one must not revive an application
+	// that was disconnected or found to have an invalid license, nor
+	// disturb one that is already connected.
+	if AppStateUnknown != app.state {
+		log.Debugf("app '%s': ignoring the result of a superseded connect attempt", app)
+		return
+	}
+
 	app.RawConnectReply = rep.RawReply.Body
 	if rep.RawReply.IsDisconnect() {
 		app.state = AppStateDisconnected
